@@ -42,6 +42,13 @@ type Result struct {
 
 var execCount int
 
+// recentWorlds is the recent history of whole-CLI runs of this process (kept for the crash-freedom
+// property only): the replay unit when a crash needs state left behind by earlier runs.
+var (
+	recentWorlds []World
+	keepWorlds   = os.Getenv("HRSIM_PROP") == "C08" && os.Getenv("HRSIM_REPLAY") == ""
+)
+
 // runningSince is the wall-clock start (unix nanoseconds) of the piece of the program under test that
 // is executing right now, 0 when none is; the worker's watchdog goroutine reads it.
 var runningSince atomic.Int64
@@ -94,6 +101,14 @@ func goSitesOutsideParser(path string) bool {
 // Exec runs the real application on world w: directly, or - when the code under test starts
 // goroutines of its own - inside a bubble under a schedule derived from the world.
 func Exec(w World) *Result {
+	if keepWorlds {
+		if len(recentWorlds) >= 60 {
+			recentWorlds = append(recentWorlds[:0], recentWorlds[20:]...)
+		}
+		if n := len(w.Files); n == 0 || len(w.Files[0].Data)+len(w.Files[n-1].Data) < 100000 {
+			recentWorlds = append(recentWorlds, cloneWorld(w))
+		}
+	}
 	enterSUT() // (outside the bubble: inside it time.Now is the fake clock)
 	defer leaveSUT()
 	if !goSched {
